@@ -307,7 +307,7 @@ def run(ctx: Ctx):
     _need(ctx, "C17-O7", "R16 PAIRED-EFFECTS", sp_, "pivot: the leaving row is scaled by the pivot element, every other row (objective row included) is cleared in the entering column, the basis label and the basis set move together", ["piv = tab[leave][enter]\n        for j in range(n_cols):\n            tab[leave][j] /= piv", "for i in range(n_rows + 1):\n            if i != leave:\n                factor = tab[i][enter]\n                if abs(factor) > eps:\n                    for j in range(n_cols):\n                        tab[i][j] -= factor * tab[leave][j]", "basis_set.discard(basis[leave])\n        basis[leave] = enter\n        basis_set.add(enter)"])
     kpf = ctx.func("utils.pricing", "knapsack_pricing")
     _need(ctx, "C17-O7", "R30 ACCUMULATOR-PAIRING", kpf, "pricing DP: a state is extended only from a reachable state, on strict improvement, and value and pattern are updated together (one more copy of item i)", ["dp_val[0] = 0.0", "prev_w = w - size_i\n                if dp_val[prev_w] > -float('inf'):\n                    new_val = dp_val[prev_w] + values[i]\n                    if new_val > dp_val[w] + eps:\n                        dp_val[w] = new_val\n                        dp_pat[w] = list(dp_pat[prev_w])\n                        dp_pat[w][i] += 1", "for _ in range(max_copies[i]):\n            for w in range(cap_int, size_i - 1, -1):"])
-    _need(ctx, "C17-O7", "R30 ACCUMULATOR-PAIRING", kpf, "the best state over all weights is returned with its own pattern", ["if dp_val[w] > best_val + eps:\n            best_val = dp_val[w]\n            best_w = w", "best_pat = dp_pat[best_w] if best_val > eps else [0] * n", "return (tuple(best_pat), best_val)"])
+    _need(ctx, "C17-O7", "R30 ACCUMULATOR-PAIRING", kpf, "the best state over all weights is returned with its own pattern", ["for w in range(cap_int + 1):\n        if dp_val[w] > best_val + eps:\n            best_val = dp_val[w]\n            best_w = w", "best_w = 0\n    best_val = 0.0", "best_pat = dp_pat[best_w] if best_val > eps else [0] * n", "return (tuple(best_pat), best_val)"])
     mfr = ctx.func("bp", "_most_fractional")
     _need(ctx, "C17-O7", "R18 table", mfr, "branching variable: the positive entry farthest from an integer; none -> the point is integral", ["if x > eps:\n            frac = abs(x - round(x))\n            if frac > eps and frac > best_frac:\n                best_idx, best_frac = (i, frac)", "if best_idx is not None:\n        return (best_idx, x_vals[best_idx])\n    return (None, None)"])
     _need(ctx, "C17-O7", "R16 PAIRED-EFFECTS", bnp, "branching creates two children that together cover the node: x <= floor(v) and x >= ceil(v) on the same column, each with the node's own bounds and the node's LP value as bound", ["left_bounds = list(node.column_bounds)\n        left_bounds.append((frac_idx, 0.0, floor(val)))\n        heappush(tree, (lp_obj, counter, _BPNode(lp_obj, tuple(left_bounds), node.depth + 1)))\n        counter += 1", "right_bounds = list(node.column_bounds)\n        right_bounds.append((frac_idx, ceil(val), float('inf')))\n        heappush(tree, (lp_obj, counter, _BPNode(lp_obj, tuple(right_bounds), node.depth + 1)))\n        counter += 1"])
@@ -415,6 +415,14 @@ def _v_right_child_floor(tree):
     M.replace_expr(g, lambda e: M.src_is(e, "ceil(val)"), M.expr("floor(val)"))
 
 
+def _v_pricing_scans_tail_only(tree):
+    g = M.find_func(tree, "knapsack_pricing")
+    loops = [n for n in ast.walk(g) if isinstance(n, ast.For) and M.src_is(n.iter, "range(cap_int + 1)") and M.src_has(n, "best_w = w")]
+    if not loops:
+        raise M.Skip("best-cell scan not found")
+    loops[0].iter = M.expr("range(max(0, cap_int - min(sizes_int) + 1), cap_int + 1)")
+
+
 def _v_bound_rows_interleaved(tree):
     g = M.find_func(tree, "_solve_bounded_master_lp")
     loops = [n for n in g.body if isinstance(n, ast.For) and M.src_has(n.iter, "col_bounds")]
@@ -452,6 +460,7 @@ VARIANTS = [
     M.Variant("branching-bound rows written in one interleaved pass while the basis assumes grouped rows (seed C17-C)", BP, _v_bound_rows_interleaved, "C17-O6"),
     M.Variant("ratio test accepts rows with a negative entry", PRI, _v_ratio_test_any_sign, "C17-O7"),
     M.Variant("right branch repeats the floor bound", BP, _v_right_child_floor, "C17-O7"),
+    M.Variant("pricing looks for the best DP cell only near the capacity (seed C17-F)", PRI, _v_pricing_scans_tail_only, "C17-O7"),
     M.Variant("twin: reformat cg", CG, _t_reformat, None),
     M.Variant("twin: reformat bp", BP, _t_reformat, None),
     M.Variant("twin: reformat pricing", PRI, _t_reformat, None),
